@@ -3,11 +3,13 @@ CONSTANTS
   Kind = "fallback"
   Ops = {"o1", "o2", "o3"}
   FileOps = {"o3"}
+  SrcType = "pipe"
   MaxPend = 3
   MaxH = 3
   ResetProvides = TRUE
   TakeEmptiesSlot = TRUE
   DropReturnsQueued = TRUE
   MaxLen = 16
+  AllowClose = TRUE
 SPECIFICATION GSpec
 INVARIANTS EmitInv
